@@ -471,6 +471,12 @@ func (s *scope) resolve(key instanceKey, descriptor *Descriptor) (any, error) {
 			return instance, nil
 		}
 
+		// The provider clears its singletons when it is closed: a resolution
+		// that overlaps the Close reports the disposed error
+		if atomic.LoadInt32(&s.rootProvider.disposed) != 0 {
+			return nil, ErrProviderDisposed
+		}
+
 		// Singleton should have been created at build time
 		return nil, &ResolutionError{
 			ServiceType: key.Type,
